@@ -401,4 +401,4 @@ def run(ctx):
         _run_pre_leaves(ctx)
     finally:
         # leaf helpers this property's rules treat by name, pinned as complete path tables
-        check_leaves(ctx, "C16.K", ['account.get_flag', 'balance.is_empty', 'balance.get_side', 'balance.is_active', 'balance.set_active'])
+        check_leaves(ctx, "C16.K", ['account.get_flag', 'balance.is_empty', 'balance.get_side', 'balance.is_active', 'balance.set_active', 'general.is_integration_asset_tag'])
